@@ -12,6 +12,7 @@ import PoetryVerif.Proofs.VRangeSort
 import PoetryVerif.Proofs.VRangeSep
 import PoetryVerif.Proofs.VRangeInv
 import PoetryVerif.Proofs.VRangeSepV
+import PoetryVerif.Proofs.VRangeInterU
 
 set_option linter.unusedSimpArgs false
 set_option linter.unusedVariables false
@@ -384,6 +385,25 @@ theorem union_intersect_exact_partial (rs : List RC) (b : VC)
     · rintro ⟨c, ⟨q, hq, hc⟩, hcp⟩; exact ⟨q, hq, c, hc, hcp⟩
     · rintro ⟨q, hq, c, hc, hcp⟩; exact ⟨c, ⟨q, hq, hc⟩, hcp⟩
   rw [e1, hsem p hp hreg, Bool.and_eq_true]
+  rfl
+
+/-- **union ∩ constraint, unconditionally in the regular setting** (bounds mutually regular, none local): the
+intersection is defined, is again a well-formed constraint over regular members (so the theorem chains), and with
+the real `allows` on every side: it admits a regular probe iff both operands do. -/
+theorem union_intersect_regular {B : List Version} (hB : RegB B) (rs : List RC) (b : VC)
+    (hwa : (VC.union rs).WF) (hwb : b.WF)
+    (ho : ∀ c ∈ rs, RegMember B c) (ht : ∀ c ∈ b.flatten, RegMember B c) :
+    ∃ res, VC.intersect (.union rs) b = .ok res ∧ res.WF ∧ (∀ c ∈ res.flatten, RegMember B c) ∧
+      ∀ p, p.wf = true → Regular (boundsOf rs ++ boundsOf b.flatten) p →
+        ∃ x y, (VC.union rs).allows p = .ok x ∧ b.allows p = .ok y ∧ res.allows p = .ok (x && y) := by
+  have hst : SortedRC b.flatten := by
+    cases b with
+    | empty => simp [SortedRC, VC.flatten]
+    | single c => simp [SortedRC, VC.flatten]
+    | union ts => exact hwb.2.2.1
+  obtain ⟨res, h1, h2, h3, h4⟩ := union_intersect_reg hB rs b ho ht hwa.2.2.1 hst
+  refine ⟨res, h1, h2, h3, fun p hp hreg => ⟨_, _, VC.allows_of_reg hB _ hwa ho p, VC.allows_of_reg hB b hwb ht p, ?_⟩⟩
+  rw [VC.allows_of_reg hB res h2 h3 p, h4 p hp hreg]
   rfl
 
 /-! ## union level: `VersionRange.difference(VersionUnion)`, `_inverted`, and `VersionUnion.allows` itself -/
